@@ -73,7 +73,10 @@ pub fn exec(cx: &mut Ctx, c: &Case) {
                 } else {
                     ci.try_seek(SeekTy::U64, u64::MAX as u128 - (c.kseed % 63) as u128, false).map_err(|_| "seek")?;
                 }
-                let _ = ci.try_apply(&mut junk);
+                // ... except that a refused request must not have touched the data ("changes nothing else")
+                if ci.try_apply(&mut junk).is_err() && junk.iter().any(|&b| b != 0) {
+                    return Err("refused-apply-changed-the-data");
+                }
             }
             _ => {}
         }
@@ -108,6 +111,10 @@ pub fn exec(cx: &mut Ctx, c: &Case) {
     match res {
         Err(p) => {
             cx.log.panic_violation(&sigp, &p);
+            return;
+        }
+        Ok(Err(what)) if what.starts_with("refused") => {
+            cx.log.violation(&format!("{}|{}", sigp, what), "a request past the end of the keystream returned Err but bytes of the buffer were changed");
             return;
         }
         Ok(Err(what)) => {
